@@ -509,6 +509,75 @@ def directed_scenarios(R, dumps):
     return out
 
 
+def derived_scenarios(R, n):
+    """attributes derived from a raw note blob (cpu.N.reg.*, cpu.N.pid over cpu.N.PRSTATUS / cpu.N.XEN_PRSTATUS) while the
+    application holds that blob and edits it: notes of a wrong size are refused when the file is opened, so a register read
+    that meets a blob shorter than the register's offset+length, an empty one, a cleared or replaced one needs a history.
+    Every error exit of the extraction must drop the pin it took (bpin of the `> S` line)."""
+    rng = R.rng
+    vm = b"OSRELEASE=5.4.0-verif\nPAGESIZE=4096\n"
+    pe = R.path("c15-prstatus.elf")
+    dumpgen.write_elf(pe, [dict(pfn=1, npages=2, voff=0xffff880000000000)],
+                      notes=dumpgen.elf_note(b"CORE", 1, dumpgen.prstatus_x86_64(1)) + dumpgen.elf_note(b"CORE", 1, dumpgen.prstatus_x86_64(2)) +
+                      dumpgen.elf_note(b"VMCOREINFO", 0, vm))
+    px = R.path("c15-xenprstatus.elf"); dumpgen.write_elf_sections(px)
+    kinds = [(pe, "PRSTATUS", 336, ["rip", "rsp", "rax", "r15", "rbp", "cs", "fs_base", "eflags"], 2, True),
+             (px, "XEN_PRSTATUS", 5168, ["cr3", "cr0", "cs", "dr0", "rip", "rsp", "rax"], 1, False)]
+    out = []
+    for k in range(n):
+        path, bk, full, regs, ncpu, haspid = kinds[k % 2] if k < 4 else rng.choice(kinds)
+        S = Scn("api")
+        S.add("new 0"); S.add("open 0 0 1 %s" % path)
+        objs = {}
+        def blobbytes(ln):
+            return bytes(rng.getrandbits(8) for _ in range(ln)).hex() or "-"
+        def somelen():
+            return rng.choice([0, 1, 8, 31, 32, 35, 36, 111, 112, 119, 120, full - 8, full - 1, full, full + 8, rng.randrange(full + 1)])
+        def rd(cpu):
+            key = "cpu.%d.%s" % (cpu, "pid" if haspid and rng.random() < 0.25 else "reg." + rng.choice(regs))
+            S.add("get 0 " + key, traced=True)
+        # the directed core first (k < 4): hold the blob, shorten it, read every kind of derived value, then the random walk
+        if k < 4:
+            S.add("get 0 cpu.0.%s 0" % bk); objs[0] = 0
+            S.add("bset 0 %s" % blobbytes([1, 31, 113, 0][k]))
+            for r in regs[:3]:
+                S.add("get 0 cpu.0.reg." + r, traced=True)
+            if haspid:
+                S.add("get 0 cpu.0.pid", traced=True)
+            S.add("bset 0 %s" % blobbytes(full)); S.add("get 0 cpu.0.reg." + regs[0], traced=True)
+        for _ in range(rng.randint(8, 30)):
+            r = rng.random(); cpu = rng.randrange(ncpu)
+            free = [o for o in range(6) if o not in objs]
+            if r < 0.30:
+                rd(cpu)
+            elif r < 0.42 and free:
+                S.add("get 0 cpu.%d.%s %d" % (cpu, bk, free[0])); objs[free[0]] = cpu     # (no object is kept when the get fails)
+            elif r < 0.62 and objs:
+                o = rng.choice(sorted(objs))
+                S.add("bset %d %s" % (o, blobbytes(somelen()))); rd(objs[o])
+            elif r < 0.72:
+                if free and rng.random() < 0.5:
+                    S.add("setblob 0 cpu.%d.%s %s %d" % (cpu, bk, blobbytes(somelen()), free[0])); objs[free[0]] = cpu
+                else:
+                    S.add("setblob 0 cpu.%d.%s %s" % (cpu, bk, blobbytes(somelen())))
+                rd(cpu)
+            elif r < 0.78:
+                S.add("clear 0 cpu.%d.%s" % (cpu, bk)); rd(cpu)
+            elif r < 0.86:
+                S.add("setnum 0 cpu.%d.reg.%s %d" % (cpu, rng.choice(regs), rng.getrandbits(rng.choice([8, 32, 64]))))
+            elif r < 0.94 and objs:
+                o = rng.choice(sorted(objs)); S.add(rng.choice(["pin %d", "unpin %d"]) % o)
+            elif objs:
+                o = rng.choice(sorted(objs)); S.add("drop %d" % o); del objs[o]
+        tail = ["free 0"] + ["drop %d" % o for o in objs]
+        rng.shuffle(tail)
+        for t in tail:
+            S.add(t)
+        S.add("closefds 0")
+        out.append(S)
+    return out
+
+
 def directed_xen_cb(R, dumps, xcs):
     """fixed shapes for fcache_get_fb's bounce-buffer path and for callback records that outlive the dump"""
     out = []
@@ -1055,6 +1124,7 @@ def run(R):
     apis = [api_scenario(R, dumps + flat, elfs, rng.choice([15, 30, 60])) for _ in range(napi)]
     consume(run_scenarios(R, exe, apis), with_model=False)
     consume(run_scenarios(R, exe, directed_scenarios(R, dumps) + directed_xen_cb(R, dumps, xcs) + directed_formats(R, elfs + dumps[:1] + flat[:1])), with_model=False)
+    consume(run_scenarios(R, exe, derived_scenarios(R, 8 if quick else 400)), with_model=False)
     cutfiles = truncated_files(R)
     consume(run_scenarios(R, exe, directed_truncated(R, cutfiles)), with_model=False)
     consume(run_scenarios(R, exe, known_scenarios(R, dumps[0])), with_model=False)
